@@ -31,7 +31,9 @@ What is a parameter / trusted
   include depth is bounded by `fuel` (a cycle exhausts it -> error, like the real RecursionError).
 * floats: numeric fields are kept as tokens (checked by `isFloatTok`), the harness applies `float()`.
 
-The specification side (`flatten`, `specAbort`) is at the end of the file.
+The specification side is at the end of the file: `flatten` (the flattened file of the property statement),
+`wellFormed` (the syntactic class of include trees for which `Properties/C08.lean` proves
+`readTop = readSingle ∘ flatten` on the observables) and `expandSpec` (`[molecules]` expanded in order).
 -/
 import PolyplyVerif.Generated.Top
 
